@@ -563,6 +563,7 @@ def run(ctx):
 
     ctx._own_rules = set(ctx.rule_min)
     imported(ctx, C05.rule_E4)
+    imported(ctx, C05.rule_E6)  # ... x cluster size: the size is the number of *mutations* of the cluster (table de-duplicated on per-mutation columns)
     # "depends only on the tree": the likelihood terms it reads come from memoised recursions whose keys must hold
     # every child array with its multiplicity (same rule objects as C14.K2-K4 / K6)
     from . import _premises
